@@ -26,9 +26,25 @@ def _pos(n):
     return (n.get("l", 0), n.get("c", 0))
 
 
+def _views(facts, body, dl):
+    """locals that are mutable views of D: `let c0 = encrypted.poly_mut(0);`, `let d = ct.data_mut();`"""
+    v = {dl}
+    changed = True
+    while changed:
+        changed = False
+        for x in walk(body):
+            if x.get("k") == "Let" and x["pat"].get("k") == "PBind" and "init" in x and x["pat"]["lid"] not in v:
+                rl = root_local(x["init"])
+                if rl and rl[0] in v and facts.ty(x["pat"]).startswith("&mut"):
+                    v.add(x["pat"]["lid"])
+                    changed = True
+    return v
+
+
 def transfers(facts, body, dl, s_lids):
-    """calls that write D (a `&mut` argument / receiver rooted at D) and read an S-derived local"""
+    """calls that write D (a `&mut` argument / receiver rooted at D or at a mutable view of D) and read an S-derived local"""
     out = []
+    dviews = _views(facts, body, dl)
     for x in walk(body):
         if x.get("k") not in ("Call", "MCall"):
             continue
@@ -46,7 +62,7 @@ def transfers(facts, body, dl, s_lids):
                 t = facts.ty_adj(a) or facts.ty(a)
                 if not t.startswith("&mut") and facts.ty(a).startswith("&mut"):
                     t = facts.ty(a)
-            if rl[0] == dl and t.startswith("&mut"):
+            if rl[0] in dviews and t.startswith("&mut"):
                 writes = True
             if rl[0] in s_lids:
                 reads = True
